@@ -108,6 +108,11 @@ func TestC14MutatedMemo(t *testing.T) {
 			muts = append(muts, kit.Mutate(rt, tree))
 		}
 		mutated := tree.String()
+		if chance(rt, "text-mutation", 10) {
+			var k string
+			mutated, k = kit.TextMutation(rt, mutated)
+			muts = append(muts, kit.Mutation{Kind: "text:" + k})
+		}
 		tr.RawMemo = &mutated
 		c := caseC14{Transfer: tr, Mutations: muts}
 
